@@ -267,6 +267,10 @@ async fn main(plan: Plan) -> Outcome {
                         }
                         b.set_is_idempotent(true);
                         b.set_timestamp(ts);
+                        // (1 in 3 batches go without a serial consistency.)
+                        if m / 16 % 3 == 0 {
+                            b.set_serial_consistency(None);
+                        }
                         let values: Vec<(i64, i64)> = (0..batch_len[k]).map(|i| (1 + i as i64, m as i64)).collect();
                         let _ = session.batch(&b, values).await;
                     }
@@ -299,6 +303,13 @@ async fn main(plan: Plan) -> Outcome {
                             }
                             b.set_is_idempotent(true);
                             b.set_timestamp(ts);
+                            if m / 16 % 3 == 0 {
+                                b.set_serial_consistency(None);
+                            }
+                        // (1 in 3 batches go without a serial consistency.)
+                        if m / 16 % 3 == 0 {
+                            b.set_serial_consistency(None);
+                        }
                             let values: Vec<(i64, i64)> = (0..batch_len[k]).map(|i| (1 + i as i64, m as i64)).collect();
                             let _ = caching.batch(&b, values).await;
                         }
@@ -332,6 +343,10 @@ async fn main(plan: Plan) -> Outcome {
                         }
                         b.set_is_idempotent(true);
                         b.set_timestamp(ts);
+                        // (1 in 3 batches go without a serial consistency.)
+                        if m / 16 % 3 == 0 {
+                            b.set_serial_consistency(None);
+                        }
                         let values: Vec<(i64, i64)> = (0..batch_len[k]).map(|i| (1 + i as i64, m as i64)).collect();
                         let _ = session.batch(&b, values).await;
                     }
